@@ -121,6 +121,7 @@ type Path struct {
 	mapMode  int
 	nq       int
 	spec     int
+	mapFixed bool
 	noMerge  bool
 	where    func() string
 }
@@ -619,7 +620,7 @@ func permutations(n int) [][]int {
 // otherwise insertion order, its reverse and all rotations.
 func (p *Path) Permute(es []*mapEntry) []*mapEntry {
 	n := len(es)
-	if n <= 1 {
+	if n <= 1 || p.mapFixed {
 		return es
 	}
 	var perms [][]int
